@@ -118,6 +118,13 @@ def log_mode_rule(db, chk):
         te = set()
         for c in geqs:
             te |= gfl.result_edges(c)["good"]
+        # a call of a closure whose result cannot be true without the test counts as the test itself
+        if depth < 3:
+            for c in g.calls():
+                clo = getattr(c, "callee", {}).get("recv_closure") if isinstance(getattr(c, "callee", None), dict) else None
+                h = next((x for x in db.closures_of(f) if x.name == clo), None) if clo else None
+                if h is not None and h is not g and "bool" in (h.locals[0] if h.locals else "") and not flag_bad_defs(h, 0, depth + 1):
+                    te |= gfl.result_edges(c)["good"]
         bad = []
         for bi, si, pl, rv, ln, mc in g.assigns():
             if pl != [L]:
